@@ -157,6 +157,11 @@ pub(super) trait DialectHandler: Any + Debug {
         false
     }
 
+    /// Whether `OFFSET` is only accepted after a `LIMIT`.
+    fn offset_requires_limit(&self) -> bool {
+        false
+    }
+
     fn ident_quote(&self) -> char {
         '"'
     }
@@ -407,6 +412,11 @@ impl DialectHandler for GlareDbDialect {
 }
 
 impl DialectHandler for SQLiteDialect {
+    // https://www.sqlite.org/lang_select.html#limitoffset (a negative LIMIT means no upper bound)
+    fn offset_requires_limit(&self) -> bool {
+        true
+    }
+
     fn set_ops_distinct(&self) -> bool {
         false
     }
